@@ -23,7 +23,7 @@ RULE = ("templates of depth <= 4 over Expression/List/Tuple/Set/Dict/FString/FCo
         "source text and wrong-arity unquotes. Non-trivial = template with a splice or a nesting "
         "level >= 1; distinct by rendered case.")
 FLOOR = {"quick": 2000, "thorough": 2000}
-BUDGET = {"quick": 30, "thorough": 480}
+BUDGET = {"quick": 25, "thorough": 480}
 CASE_TIMEOUT = 20
 NEEDS_EVENTS = True
 ANCHORS = ["hy.core.result_macros:render_quoted_form", "hy.core.result_macros:compile_quote"]
@@ -32,6 +32,8 @@ ASSUMPTIONS = [
     "a substituted plain value and its promoted model are not distinguished (both sides are promoted "
     "before comparison): Hy promotes lazily and the docs do not say when",
     "a splice needs a parent sequence (a top-level ~@ is not constrained); ~@ of #* is not generated",
+    "a spliced value is never an FString assembled by a nested quasiquote (FString joins adjacent "
+    "strings at construction, so what the splice iterates over would depend on promotion timing)",
     "splice values are iterables or false values; unquote arguments are effect-free",
 ]
 MANIFEST = {
@@ -262,7 +264,10 @@ class TGen:
                                        for _ in range(rng.choice([0, 1, 2]))]}
         if r < 0.9:
             self.feat.add("arg:nested-quasiquote")
-            return G.expr(G.sym("quasiquote"), self.seq(depth - 1, 0))
+            # a *spliced* value is never an FString built by a nested quasiquote: FString joins
+            # adjacent String children when constructed, so the number of elements the splice
+            # sees would depend on when plain strings are promoted, which Hy leaves open
+            return G.expr(G.sym("quasiquote"), self.seq(depth - 1, 0, no_fstr=splice))
         if splice:
             self.feat.add("arg:quoted-seq")
             return G.expr(G.sym("quote"), {"t": rng.choice(["List", "Expr"]),
@@ -305,9 +310,9 @@ class TGen:
             return G.expr(G.sym("quote"), self.node(depth - 1, level, True))
         return self.seq(depth, level)
 
-    def seq(self, depth, level):
+    def seq(self, depth, level, no_fstr=False):
         rng = self.rng
-        t = rng.choice(["Expr", "Expr", "List", "Tuple", "Set", "Dict", "FStr", "FComp"])
+        t = rng.choice(["Expr", "Expr", "List", "Tuple", "Set", "Dict", "FComp"] + ([] if no_fstr else ["FStr"]))
         n = rng.choice([0, 1, 2, 2, 3, 4])
         kids = [self.node(depth - 1, level, True) for _ in range(n)]
         self.feat.add("in:" + t)
@@ -420,9 +425,9 @@ def judge(tmpl, env_json):
         exp, exp_exc = r[0], None
     except Arity as e:
         exp, exp_exc = None, e
-    except (TypeError, ValueError) as e:
+    except (TypeError, ValueError):
         # e.g. FString(brackets=...) refusing a spliced string: not a property of quasiquote
-        return None, None, ["skip:reference-constructor-refused", "skip:" + type(e).__name__ + ":" + str(e)[:40]]
+        return None, None, ["skip:reference-constructor-refused"]
     try:
         got = hy.eval(M.Expression([M.Symbol("quasiquote"), tmpl]), locals=env_h, module=_mod())
         got_exc = None
@@ -486,6 +491,25 @@ def _has_clobber(ir):
     return bool(found)
 
 
+def _splices_fstring(j, level=0):
+    """A level-0 ~@ whose argument is a nested quasiquote of an FString (not constrained, see
+    ASSUMPTIONS)."""
+    h = None
+    if j["t"] == "Expr" and j["c"] and j["c"][0]["t"] == "Sym":
+        h = j["c"][0]["v"].replace("_", "-")
+    if h in ("unquote", "unquote-splice"):
+        if level == 0:
+            for c in j["c"][1:]:
+                if c["t"] == "Expr" and len(c["c"]) == 2 and c["c"][0] == G.sym("quasiquote"):
+                    if (h == "unquote-splice" and c["c"][1]["t"] == "FStr") or _splices_fstring(c["c"][1], 0):
+                        return True
+            return False
+        level -= 1
+    elif h == "quasiquote":
+        level += 1
+    return any(_splices_fstring(c, level) for c in j.get("c", ()))
+
+
 NORMALISERS = [
     ("fcomponent-attrs-clobbered-in-unquote", _has_clobber, lambda ir: _clobber(ir, fix=True)),
 ]
@@ -511,6 +535,8 @@ def run_case(case):
     feat = scan_feats(ir) | {f for f in case.get("feat", ()) if f.startswith("arg:")
                              or f in ("underscore-spelling", "quote-wrapper")}
     classes += sorted(feat)
+    if _splices_fstring(ir):
+        return {"ok": None, "classes": ["skip:splice-of-nested-quasiquoted-fstring"]}
     status, why, tags = judge(tmpl, case["env"])
     classes += tags
     if status is None:
